@@ -63,6 +63,9 @@ theorem lenOk_iff {n : Nat} : lenOk n = true ↔ n < 4294967296 := by simp [lenO
 @[simp] theorem pure_apply (a : α) (s : Bytes) : (pure a : Rd α) s = .ok (a, s) := rfl
 @[simp] theorem fail_apply (e : Err) (s : Bytes) : (fail e : Rd α) s = .error e := rfl
 
+@[simp] theorem liftOpt_some (a : α) (e : Err) (s : Bytes) : liftOpt (some a) e s = .ok (a, s) := rfl
+@[simp] theorem liftOpt_none (e : Err) (s : Bytes) : (liftOpt (none : Option α) e) s = .error e := rfl
+
 @[simp] theorem readU8_cons (b : UInt8) (r : Bytes) : readU8 (b :: r) = .ok (b, r) := rfl
 @[simp] theorem readU16_enc (x : UInt16) (r : Bytes) : readU16 (encU16 x ++ r) = .ok (x, r) := by
   simp [readU16, encU16, u16Of_enc]
